@@ -74,3 +74,13 @@ Proof. eexists. eexists. vm_compute. reflexivity. Qed.
 Example root_calls : root_call_names (pcall_ (PBinding "fn" 0 (POr [PTypeAware "Symbol" (PString "a.F"); PTypeAware "Symbol" (POr [PString "b.G"; PString "c.H"])])) PAny)
                      = ["a.F"; "b.G"; "c.H"].
 Proof. vm_compute. reflexivity. Qed.
+
+(* kinds outside allTypes: Symbol next to a start-anywhere alternative keeps IndexListExpr as an entry kind *)
+Definition p_any_or_sym := POr [PAny; PTypeAware "Symbol" (PString "example.com/m/lib.Pair")].
+Example extra_kind_kept :
+  mem "IndexListExpr" (entry_kinds gen_tables p_any_or_sym) = true /\ mem "IndexListExpr" (t_all gen_tables) = false /\
+  tight gen_tables (PTypeAware "Symbol" (PString "example.com/m/lib.Pair")) = true /\ tight gen_tables p_any_or_sym = false.
+Proof. repeat split; vm_compute; reflexivity. Qed.
+(* a mixed callee has no root call symbols *)
+Example mixed_callee : root_call_names (pcall_ (POr [PTypeAware "Symbol" (PString "a.F"); pid_ (PString "f")]) PAny) = [].
+Proof. vm_compute. reflexivity. Qed.
